@@ -7,6 +7,7 @@ with the observation grammar of refsem.observe().
 """
 import hashlib
 import os
+import re
 import shutil
 import subprocess
 import tempfile
@@ -256,5 +257,9 @@ def build_and_run(scratch, headers, main_header, driver_text, cxx="g++", std="c+
     rr = subprocess.run([exe], capture_output=True, timeout=timeout, env=env)
     res["run_rc"] = rr.returncode
     res["stdout"] = rr.stdout
-    res["stderr"] = rr.stderr.decode("utf-8", "replace").replace(scratch.dir, "<scratch>")[-6000:]
+    # addresses and pids vary from run to run (ASLR); a replayed unit must report the same text
+    err = rr.stderr.decode("utf-8", "replace").replace(scratch.dir, "<scratch>")
+    err = re.sub(r"0x[0-9a-f]{6,}", "0x?", err)
+    err = re.sub(r"==\d+==", "==pid==", err)
+    res["stderr"] = err[-6000:]
     return res
